@@ -540,6 +540,38 @@ def opMiner (j : Json) : R Json := do
     ("taintHistory", Json.arr (((taint.zip seeds).map fun (l, sd) => ratJson (taintHistory sd l))).toArray),
     ("names", uni "name"), ("descriptions", uni "description"), ("containers", uni "container")])
 
+open Edxml.Miner in
+/-- one reasoning pass of the miner, replayed from the trace of a real run -/
+def opSearch (j : Json) : R Json := do
+  let nodes ← (← fldArr j "nodes").mapM fun n => do
+    match ← arr n with
+    | [c, t] => pure ((← ratOf c), (← ratOf t))
+    | _ => throw "node = [conf, taint]"
+  let g : SGraph := { conf := fun k => (nodes.getD k (0, 0)).1, taint := fun k => (nodes.getD k (0, 0)).2 }
+  let min ← ratOf (← fld j "min")
+  let eps ← ratOf (← fld j "eps")
+  let md ← fldNat j "maxDepth"
+  let seed ← fldNat j "seed"
+  let tr : ATrace ← (← fldArr j "trace").mapM fun st => do
+    match ← arr st with
+    | [n, es] =>
+      let es ← (← arr es).mapM fun e => do
+        match ← arr e with
+        | [t, c, r] =>
+          let r : Option Rat ← (match r with | Json.null => pure none | x => do pure (some (← ratOf x)))
+          pure (({ tgt := ← t.getNat?, conf := ← ratOf c } : SEdge), r)
+        | _ => throw "edge = [tgt, conf, assigned|null]"
+      pure ((← n.getNat?), es)
+    | _ => throw "step = [node, edges]"
+  match runC g min eps md seed tr with
+  | some s =>
+    let ks := List.range nodes.length
+    pure (Json.mkObj [("valid", Json.bool true),
+      ("sc", Json.arr (ks.map fun k => match s.sc k with | some c => ratJson c | none => Json.null).toArray),
+      ("depth", Json.arr (ks.map fun k => Json.num (s.depth k)).toArray),
+      ("visited", Json.arr (s.visited.reverse.map fun (k : Nat) => Json.num (k : Nat)).toArray)])
+  | none => pure (Json.mkObj [("valid", Json.bool false), ("firstBad", Json.num (firstBad g min eps md seed tr))])
+
 def opMediator (j : Json) : R Json := do
   let ig ← fldBool j "ignoreInvalid"
   let ops ← (← fldArr j "ops").mapM fun o => do
@@ -664,6 +696,7 @@ def dispatch (j : Json) : R Json := do
   | "xmlesc" => opXmlEsc j
   | "wstream" => opWStream j
   | "miner" => opMiner j
+  | "search" => opSearch j
   | "mediator" => opMediator j
   | "template" => opTemplate j
   | x => throw s!"unknown op {x}"
